@@ -8,6 +8,7 @@
 #include "core/sockimpl.h"
 #include <poll.h>
 #include <pthread.h>
+#include <signal.h>
 #include <stdarg.h>
 #include <stdio.h>
 #include <stdlib.h>
@@ -106,6 +107,8 @@ get32(const uint8_t *p)
 // a message as a JSON object: header words (if any, 4-byte aligned) and the body tag.
 // body: 4 bytes = tag; otherwise "len" is reported and tag = first 4 bytes (or 0)
 static int symw;
+static nng_aio *dev_aio;
+static int dev_plain; // device kinds pipeline / pair: plain tagged messages, device life cycle reported (spec dev/DevLife.tla)
 static int dev_mode; // "proto device <kind>": sut = replier-side raw socket, sut2 = requester-side raw socket, nng_device between
 static void
 sym_word(uint32_t w, int first)
@@ -124,7 +127,7 @@ msg_json(nng_msg *m)
 {
 	size_t   hl = nng_msg_header_len(m), bl = nng_msg_len(m);
 	uint8_t *h = nng_msg_header(m), *b = nng_msg_body(m);
-	if (dev_mode) {
+	if (dev_mode && !dev_plain) {
 		o("{\"hdr\":[");
 		for (size_t i = 0; i + 4 <= hl; i += 4) {
 			sym_word(get32(h + i), i == 0);
@@ -552,12 +555,25 @@ obs_json(void)
 		int first = 1;
 		for (int s = 1; s < VT_MAXSLOTS; s++) {
 			if (vt_alive(s) && !vt_closed(s)) {
-				o("%s[%d,%d,%d]", first ? "" : ",", s, vt_send_parked(s), vt_recv_parked(s));
+				if (dev_plain) {
+					o("%s[%d,%d]", first ? "" : ",", s, vt_send_parked(s));
+				} else {
+					o("%s[%d,%d,%d]", first ? "" : ",", s, vt_send_parked(s), vt_recv_parked(s));
+				}
 				first = 0;
 			}
 		}
 	}
 	o("]");
+	if (dev_plain) {
+		if (dev_aio == NULL) {
+			o(",\"dev\":\"idle\"");
+		} else if (nng_aio_busy(dev_aio)) {
+			o(",\"dev\":\"run\"");
+		} else {
+			o(",\"dev\":\"done:%s\"", rvname(nng_aio_result(dev_aio)));
+		}
+	}
 	if (!sut_open && !dev_mode) {
 		// closed socket: no descriptors left to poll
 		o(",\"pollw\":false,\"pollr\":false");
@@ -581,7 +597,6 @@ obs_json(void)
 static nng_socket sut2;
 static int        sut2_open;
 static uint16_t   peer_proto2;
-static nng_aio   *dev_aio;
 static long walk = -1;
 static int  step;
 static int  quiet_cmd; // the current command came with a leading '!': configuration, no result line
@@ -669,6 +684,18 @@ mk_msg(uint32_t tag)
 	}
 	nng_msg_append_u32(m, tag);
 	return m;
+}
+
+// per-walk watchdog: a walk takes milliseconds; a call that never returns (e.g. waiting for an operation that is never
+// completed) must end the run quickly and visibly
+static void
+on_alarm(int sig)
+{
+	static const char m[] = "driver: watchdog: walk does not finish (an operation never completes / a call never returns)\n";
+	(void) sig;
+	if (write(2, m, sizeof(m) - 1) < 0) {
+	}
+	_exit(97);
 }
 
 static op_t *
@@ -766,6 +793,8 @@ main(int argc, char **argv)
 		if (!strcmp(cmd, "W")) {
 			walk = atol(a1);
 			step = 0;
+			signal(SIGALRM, on_alarm);
+			alarm(60);
 			printf("B %ld\n", walk);
 			fflush(stdout);
 			memset(ops, 0, sizeof(ops));
@@ -812,7 +841,7 @@ main(int argc, char **argv)
 				nng_socket_close(sut2);
 				sut2_open = 0;
 			}
-			dev_mode = 0;
+			dev_mode = dev_plain = 0;
 			dee_run_all(10000);
 			if (bd.inflight) {
 				// a blocking dial still in flight: closing the socket must have ended it
@@ -867,10 +896,25 @@ main(int argc, char **argv)
 			if (!strcmp(a1, "device")) {
 				// proto device reqrep|survey: sut (irc://sut) faces the requesters/surveyors, sut2 (irc://sut2) the repliers
 				int surv = !strcmp(a2, "survey");
+				int pl   = !strcmp(a2, "pipeline"), pr = !strcmp(a2, "pair");
 				dev_mode   = 1;
+				dev_plain  = pl || pr;
 				raw_mode   = 1;
 				peer_proto = surv ? NNI_PROTO(6, 2) : NNI_PROTO(3, 0);
 				peer_proto2 = surv ? NNI_PROTO(6, 3) : NNI_PROTO(3, 1);
+				if (pl) {
+					// raw PULL (its peers push) -> raw PUSH (its peers pull)
+					peer_proto  = NNI_PROTO(5, 0);
+					peer_proto2 = NNI_PROTO(5, 1);
+					if ((rv = nng_pull0_open_raw(&sut)) != 0 || (rv = nng_push0_open_raw(&sut2)) != 0) {
+						return 3;
+					}
+				} else if (pr) {
+					peer_proto = peer_proto2 = NNI_PROTO(1, 0);
+					if ((rv = nng_pair0_open_raw(&sut)) != 0 || (rv = nng_pair0_open_raw(&sut2)) != 0) {
+						return 3;
+					}
+				} else
 				if ((rv = (surv ? nng_respondent0_open_raw(&sut) : nng_rep0_open_raw(&sut))) != 0 ||
 				    (rv = (surv ? nng_surveyor0_open_raw(&sut2) : nng_req0_open_raw(&sut2))) != 0) {
 					return 3;
@@ -904,12 +948,14 @@ main(int argc, char **argv)
 		if (!strcmp(cmd, "connect")) {
 			int s = atoi(a1);
 			int r;
-			if (dev_mode && dev_aio == NULL) {
+			if (dev_mode && dev_aio == NULL && !dev_plain) {
 				nng_aio_alloc(&dev_aio, NULL, NULL);
 				nng_device_aio(dev_aio, sut, sut2);
 				quiesce();
 			}
-			if (!strcmp(a2, "D")) {
+			if (dev_plain) {
+				r = !strcmp(a2, "R") ? vt_connect("sut2", peer_proto2, s) : vt_connect("sut", peer_proto, s);
+			} else if (!strcmp(a2, "D")) {
 				r = vt_connect("dial", peer_proto, s);
 			} else if (dev_mode && !strcmp(a2, "R")) {
 				r = vt_connect("sut2", peer_proto2, s);
@@ -1041,6 +1087,21 @@ main(int argc, char **argv)
 				done_json();
 				o("},");
 			}
+		} else if (!strcmp(cmd, "devstart")) {
+			nng_aio_alloc(&dev_aio, NULL, NULL);
+			nng_device_aio(dev_aio, sut, sut2);
+			o("\"out\":{\"rv\":\"ok\"},");
+		} else if (!strcmp(cmd, "devcancel")) {
+			// the only way to end a device; the operation must then complete (once), whatever the paths are doing
+			// (its last callback closes both sockets, which waits for other callbacks: everything runs free from here)
+			dee_gate(0);
+			dee_run_all(10000);
+			nng_aio_cancel(dev_aio);
+			for (int i = 0; i < 30000 && nng_aio_busy(dev_aio); i++) {
+				struct timespec ts = { 0, 100000 };
+				nanosleep(&ts, NULL);
+			}
+			o("\"out\":{\"rv\":\"ok\"},");
 		} else if (!strcmp(cmd, "cancel")) {
 			nng_aio_cancel(ops[atoi(a1)].aio);
 			settle();
